@@ -3,6 +3,7 @@ import sys
 
 from sa import report, partial as P, rules_read as RD, rules_emit as RE
 from sa import rules_extra as RX
+from sa import rules_emitgrammar as REG
 
 
 def emitter_sites(J, s):
@@ -53,6 +54,8 @@ def run(ctx, repo):
     RX.r_emitter_doc_reset(ctx, repo)
     RX.r_escape_introducer(ctx, repo)
     RX.r_fold_leading_space(ctx, repo)
+
+    REG.r_emitter_grammar(ctx, repo, max_len=8, slack=2 if ctx.tier == 'thorough' else 1)
 
 
 if __name__ == '__main__':
